@@ -1053,19 +1053,21 @@ class C15(core.Check):
 
 
 C15.level_text = (
-    "Proved in Coq for EVERY byte stream, every interleaving of resizes (sizes >= 1x1), view scrolling and focus changes "
-    "and every chunking, with no bound on lengths or parameters, about the executable model of TermCanvas: the run never "
-    "raises (incl. no IndexError from any grid/tab-stop access, no AttrSpecError from SGR, enough fuel for the tab loop); "
-    "the grid always has exactly height rows of exactly width cells; term_cursor, the canvas cursor and the scrolling "
-    "region stay inside; every reply written to the pty is one of ESC[0n, ESC[?6c, ESC[row;colR with row, col >= 1 "
-    "(vterm_safe); feeding a stream in pieces equals feeding it whole (chunking_irrelevant); a scroll appends exactly the "
-    "departing top line at the end of the scrollback (scrollback_in_order, up to the deque's maxlen). "
-    "REFUTED in Coq with witnesses replayed on the implementation (known findings): the scrolled-back content() keeps "
-    "height x width after a resize (content_dims_refuted), and the refinement of the reference VT100 on the stated subset "
-    "(vterm_refines_vt100_refuted: IL drops the wrong line, ED 1 spares the cursor cell, a stale wrap flag after cursor "
-    "moves, autowrap below the scrolling region).  ORACLE/CORRESPONDENCE ONLY: agreement with the reference VT100 outside "
-    "those four families (vterm_refines_vt100_full is stated, not proved); the tie of the hand model to vterm.py (exact "
-    "whole-state correspondence, ~8k cases per quick run).")
+    "Proved in Coq for EVERY session from a fresh terminal - every byte stream, every chunking, every interleaving of "
+    "resizes (sizes >= 1x1), view scrolling and focus changes, no bound on lengths or parameters - about the executable "
+    "model of TermCanvas (vterm_safe): the run never raises (no IndexError from any grid / tab-stop access, no "
+    "AttrSpecError from SGR, enough fuel for the tab loop); the size follows the resizes; the grid and the view handed to "
+    "the renderer (scrolled back or not) have exactly height rows of exactly width cells; term_cursor, the canvas cursor "
+    "and the scrolling region stay inside; the view offset stays within the scrollback; every reply written to the pty "
+    "matches ESC[0n | ESC[?6c | ESC[[1-9][0-9]*;[1-9][0-9]*R.  chunking_irrelevant: feeding a stream in pieces equals "
+    "feeding it whole anywhere in a session.  scrollback_in_order(_scroll): a scroll appends exactly the departing top "
+    "line; after any feed the scrollback is a suffix of (old scrollback ++ new lines); scrolled_back_view: the view shows "
+    "rows [len-k, len-k+height) of scrollback ++ screen padded/cut to the width.  Proofs also cover the translated "
+    "constrain_coords and the generated CSI table.  ORACLE / CORRESPONDENCE ONLY: equality with the reference VT100 on the "
+    "stated subset (vterm_refines_vt100_full is stated, NOT proved; the implementation, the extracted emulator model, the "
+    "extracted Coq reference and an independent Python reference are run against each other on generated command lists, "
+    "with closed Coq examples for the formerly failing sequences); the tie of the hand model to vterm.py (exact "
+    "whole-state correspondence on ~9k cases per quick run).")
 C15.level_note = (
     "Trusted: Coq kernel, py2v (csi_table / constrain_coords / DEC map regenerated each run), extraction + driver, the "
     "hand model VTerm.v and the AttrSpec abstraction (both validated by correspondence only), PyList semantics, the Python "
